@@ -217,8 +217,14 @@ func (i *interpreter) symBinop(op token.Token, x, y value) value {
 		case token.GEQ:
 			return cmp("fp.geq")
 		case token.EQL:
+			if a == b {
+				return i.boolSym(c.Not(c.IsNaN(a)))
+			}
 			return cmp("fp.eq")
 		case token.NEQ:
+			if a == b {
+				return i.boolSym(c.IsNaN(a))
+			}
 			return i.boolSym(c.Not(c.App("fp.eq", sym.Bool, a, b)))
 		case token.QUO:
 			r := c.App("f.div", s, a, b)
@@ -391,6 +397,23 @@ func (i *interpreter) symConv(dst types.BasicKind, x symVal) value {
 		op := fmt.Sprintf("(_ to_fp_unsigned %d %d) RNE", eb, sb)
 		if kindSigned(src) {
 			op = fmt.Sprintf("(_ to_fp %d %d) RNE", eb, sb)
+		}
+		// conversions of ite-trees of literals (parse tables) are folded leaf by leaf
+		if r, ok := c.LiftUnary(x.t, func(l *sym.Term) *sym.Term {
+			w := kindWidth(src)
+			var f float64
+			if kindSigned(src) {
+				sh := uint(64 - w)
+				f = float64(int64(l.CBits<<sh) >> sh)
+			} else {
+				f = float64(l.CBits)
+			}
+			if dst == types.Float32 {
+				return c.F32Lit(float32(f))
+			}
+			return c.F64Lit(f)
+		}); ok {
+			return i.mkSym(r, dst)
 		}
 		return symVal{c.App(op, kindSort(dst), x.t), dst}
 	case kindIsFloat(src) && kindIsFloat(dst):
@@ -653,9 +676,70 @@ func (i *interpreter) decodeRuneSym(s symStr, p int) (value, int) {
 	if i.truth(i.boolSym(c.App("bvult", sym.Bool, sv.t, c.BVLit(0x80, 8)))) {
 		return i.mkSym(i.extend(sv.t, 8, 32, false), types.Int32), 1
 	}
-	// bytes 0x80..0xC1 and 0xF5..0xFF are invalid lead bytes: RuneError, width 1
-	if i.truth(i.boolSym(c.Or(c.App("bvult", sym.Bool, sv.t, c.BVLit(0xC2, 8)), c.App("bvugt", sym.Bool, sv.t, c.BVLit(0xF4, 8))))) {
-		return rune(utf8.RuneError), 1
+	return i.decodeMultiByte(s, p, sv.t)
+}
+
+// decodeMultiByte implements utf8.DecodeRuneInString for a lead byte >= 0x80
+// by forking on the lead-byte class and on the validity of the continuation bytes.
+func (i *interpreter) decodeMultiByte(s symStr, p int, lead *sym.Term) (value, int) {
+	c := i.ctx()
+	in := func(t *sym.Term, lo, hi uint64) bool {
+		return i.truth(i.boolSym(c.And(c.App("bvuge", sym.Bool, t, c.BVLit(lo, 8)), c.App("bvule", sym.Bool, t, c.BVLit(hi, 8)))))
 	}
-	panic(unsupported{"symbolic multi-byte UTF-8 lead byte"})
+	byteAt := func(q int) (*sym.Term, bool) {
+		if q >= len(s.b) {
+			return nil, false
+		}
+		if _, ok := s.b[q].(opaque); ok {
+			panic(unsupported{"range over a string containing a formatted symbolic number"})
+		}
+		return i.term(s.b[q]), true
+	}
+	bad := func() (value, int) { return rune(utf8.RuneError), 1 }
+	bits := func(t *sym.Term, mask uint64) *sym.Term {
+		return i.extend(c.App("bvand", sym.BV8, t, c.BVLit(mask, 8)), 8, 32, false)
+	}
+	shl := func(t *sym.Term, n uint64) *sym.Term { return c.App("bvshl", sym.BV32, t, c.BVLit(n, 32)) }
+	or := func(ts ...*sym.Term) *sym.Term {
+		acc := ts[0]
+		for _, t := range ts[1:] {
+			acc = c.App("bvor", sym.BV32, acc, t)
+		}
+		return acc
+	}
+	type cls struct {
+		lo, hi     uint64 // lead byte range
+		n          int    // sequence length
+		b1lo, b1hi uint64
+		mask       uint64
+	}
+	classes := []cls{
+		{0xC2, 0xDF, 2, 0x80, 0xBF, 0x1F},
+		{0xE0, 0xE0, 3, 0xA0, 0xBF, 0x0F},
+		{0xE1, 0xEC, 3, 0x80, 0xBF, 0x0F},
+		{0xED, 0xED, 3, 0x80, 0x9F, 0x0F},
+		{0xEE, 0xEF, 3, 0x80, 0xBF, 0x0F},
+		{0xF0, 0xF0, 4, 0x90, 0xBF, 0x07},
+		{0xF1, 0xF3, 4, 0x80, 0xBF, 0x07},
+		{0xF4, 0xF4, 4, 0x80, 0x8F, 0x07},
+	}
+	for _, k := range classes {
+		if !in(lead, k.lo, k.hi) {
+			continue
+		}
+		b1, ok := byteAt(p + 1)
+		if !ok || !in(b1, k.b1lo, k.b1hi) {
+			return bad()
+		}
+		r := or(shl(bits(lead, k.mask), uint64(6*(k.n-1))), shl(bits(b1, 0x3F), uint64(6*(k.n-2))))
+		for q := 2; q < k.n; q++ {
+			bq, ok := byteAt(p + q)
+			if !ok || !in(bq, 0x80, 0xBF) {
+				return bad()
+			}
+			r = or(r, shl(bits(bq, 0x3F), uint64(6*(k.n-1-q))))
+		}
+		return i.mkSym(r, types.Int32), k.n
+	}
+	return bad()
 }
